@@ -43,6 +43,11 @@ fn alphabet(thorough: bool) -> Vec<DataDef> {
         for s in ["", "a", "ab", "seventeen chars!!", "\"q\"", "x\"y"] {
             v.push(DataDef::Str(lab(&mut k), w, s.to_string()));
         }
+        // strings longer than 255 (and, for words, longer than 32767 so that they exceed a segment)
+        v.push(DataDef::Str(lab(&mut k), w, "0123456789abcdef".repeat(19)));
+        if thorough || w == W::W {
+            v.push(DataDef::Str(lab(&mut k), w, "xyz".repeat(11000)));
+        }
     }
     v
 }
